@@ -309,6 +309,18 @@ def explore(ctx):
                   [{"name": "flattenComponents", "pre": True}, {"name": "propagateAnchors", "pre": True}]][(i // 3) % 3]
             desc["lib"] = {"com.github.googlei18n.ufo2ft.filters": fl}
             ctx.klass("sem:lib filters " + "+".join(f["name"] for f in fl))
+            # always: a composite whose FIRST component is offset-only and whose second is scaled (and one nesting it): a filter
+            # that decomposes only part of the components must not move the others' contours behind them
+            plainz = [g["name"] for g in desc["glyphs"] if g["contours"] and not g["components"]]
+            if len(plainz) >= 1:
+                p0, p1 = plainz[0], plainz[-1]
+                desc["glyphs"].append({"name": "ord.mix", "unicodes": [], "width": Fr(600), "contours": [], "anchors": [],
+                                       "components": [(p0, (Fr(1), Fr(0), Fr(0), Fr(1), Fr(10), Fr(-100))),
+                                                      (p1, (Fr(1, 2), Fr(0), Fr(0), Fr(1, 2), Fr(300), Fr(0))),
+                                                      (p0, (Fr(1), Fr(0), Fr(0), Fr(1), Fr(601), Fr(11)))]})
+                desc["glyphs"].append({"name": "ord.outer", "unicodes": [], "width": Fr(700), "contours": [], "anchors": [],
+                                       "components": [("ord.mix", (Fr(1), Fr(0), Fr(0), Fr(1), Fr(5), Fr(5))),
+                                                      (p0, (Fr(-1), Fr(0), Fr(0), Fr(1), Fr(900), Fr(0)))]})
         skipped = []
         if i % 4 == 2:
             # a glyph that others use as a component (possibly mirrored, possibly through nesting) is not exported: it is
